@@ -260,8 +260,11 @@ func runBeh(tr *vt.Trace, b beh, kind string, n int) {
 			ev["err"] = errClass(err)
 		case "external":
 			m := map[string]int{}
-			for kk, vv := range op[1].(map[string]any) {
-				m[kk] = num(vv)
+			// (TLC prints a function with an empty domain as [], not {})
+			if obj, ok := op[1].(map[string]any); ok {
+				for kk, vv := range obj {
+					m[kk] = num(vv)
+				}
 			}
 			tick()
 			writeExternal(m)
